@@ -124,7 +124,7 @@ func C03(r *explore.Run) {
 					c.Violation(sig, s, d)
 				}
 				if res.Err != nil {
-					c.Nontrivial(explore.Hash(Entries[i].Name + s))
+					c.Nontrivial(explore.Hash(s))
 				}
 			}
 		}
@@ -139,7 +139,7 @@ func C03(r *explore.Run) {
 			cls = "panic"
 		} else if res.Err != nil {
 			cls = "error"
-			c.Nontrivial(explore.Hash(e.Name + s))
+			c.Nontrivial(explore.Hash(s))
 		}
 		var sh strings.Builder
 		sh.WriteString(e.Name)
@@ -155,7 +155,7 @@ func C03(r *explore.Run) {
 			c.Violation(sig, e.Name+": "+s, d)
 		}
 		if res.Err != nil {
-			c.Nontrivial(explore.Hash(e.Name + s))
+			c.Nontrivial(explore.Hash(s))
 		}
 		if res.Panic == nil {
 			c.OutcomeStr(e.Name + shapeOf(res.Roots))
